@@ -123,6 +123,67 @@ theorem readN_wr (env : Env) (el : Ty) (rd : Bytes → Res (Val × Bytes))
     | panic => rw [h1] at h; cases h
     | fuel => rw [h1] at h; cases h
 
+/-- what the slot-counting loop returns takes up exactly the slots asked for and re-writes to the bytes consumed -/
+theorem readSlots_wr (env : Env) (wide : List Nat) (el : Ty) (rd : Bytes → Res (Val × Bytes))
+    (hrd : ∀ bs v r, IsBytes bs → rd bs = .ok (v, r) → ∃ b, writeV env el v = some b ∧ b ++ r = bs) :
+    ∀ (N n : Nat), n ≤ N → ∀ (bs : Bytes) (vs : List Val) (r : Bytes), IsBytes bs →
+      readSlots wide rd n bs = .ok (vs, r) →
+      slotsAll wide vs = n ∧ ∃ b, writeAll env el vs = some b ∧ b ++ r = bs := by
+  intro N
+  induction N with
+  | zero =>
+    intro n hn bs vs r _ h
+    have : n = 0 := by omega
+    subst this
+    simp [readSlots] at h
+    obtain ⟨rfl, rfl⟩ := h
+    exact ⟨rfl, [], rfl, rfl⟩
+  | succ N ih =>
+    intro n hn bs vs r hb h
+    cases n with
+    | zero =>
+      simp [readSlots] at h
+      obtain ⟨rfl, rfl⟩ := h
+      exact ⟨rfl, [], rfl, rfl⟩
+    | succ n =>
+      simp only [readSlots] at h
+      cases h1 : rd bs with
+      | ok x =>
+        obtain ⟨v, bs1⟩ := x
+        rw [h1] at h; simp only [Res.bind_ok] at h
+        obtain ⟨a, ha, hea⟩ := hrd bs v bs1 hb h1
+        -- the recursive call, on `m` slots
+        have step : ∀ m, m ≤ N → ∀ (y : Res (List Val × Bytes)), y = readSlots wide rd m bs1 →
+            (y.bind fun (vs, r) => Res.ok (v :: vs, r)) = .ok (vs, r) →
+            ∃ ws, vs = v :: ws ∧ slotsAll wide ws = m ∧ ∃ b, writeAll env el (v :: ws) = some b ∧ b ++ r = bs := by
+          intro m hm y hy hbind
+          cases h2 : readSlots wide rd m bs1 with
+          | ok z =>
+            obtain ⟨ws, r2⟩ := z
+            rw [hy, h2] at hbind; simp at hbind
+            obtain ⟨rfl, rfl⟩ := hbind
+            obtain ⟨hs, w, hw, hew⟩ := ih m hm bs1 ws r2 (hb.suffix hea) h2
+            refine ⟨ws, rfl, hs, a ++ w, by simp [writeAll, ha, hw], ?_⟩
+            rw [List.append_assoc, hew, hea]
+          | err => rw [hy, h2] at hbind; cases hbind
+          | panic => rw [hy, h2] at hbind; cases hbind
+          | fuel => rw [hy, h2] at hbind; cases hbind
+        cases hwd : isWide wide v with
+        | true =>
+          simp only [hwd, if_true] at h
+          cases n with
+          | zero => cases h
+          | succ m =>
+            obtain ⟨ws, rfl, hs, hb'⟩ := step m (by omega) _ rfl h
+            exact ⟨by simp [slotsAll, slotsV, hwd, hs]; omega, hb'⟩
+        | false =>
+          simp only [hwd] at h
+          obtain ⟨ws, rfl, hs, hb'⟩ := step n (by omega) _ rfl (by simpa using h)
+          exact ⟨by simp [slotsAll, slotsV, hwd, hs]; omega, hb'⟩
+      | err => rw [h1] at h; cases h
+      | panic => rw [h1] at h; cases h
+      | fuel => rw [h1] at h; cases h
+
 theorem readTy_wr (env : Env) (rc : Rec) (hrc : RecWR env rc) : ∀ (ty : Ty) (pool : Pool) (binds : Binds)
     (bs : Bytes) (v : Val) (r : Bytes), IsBytes bs → readTy rc pool binds ty bs = .ok (v, r) →
     ∃ b, writeV env ty v = some b ∧ b ++ r = bs := by
@@ -166,6 +227,23 @@ theorem readTy_wr (env : Env) (rc : Rec) (hrc : RecWR env rc) : ∀ (ty : Ty) (p
         rw [h2] at h; simp at h
         obtain ⟨rfl, rfl⟩ := h
         obtain ⟨_, w, hw, hew⟩ := readN_wr env el _ (fun bs v r hb h => ih pool binds bs v r hb h) n bs vs r2 hb h2
+        exact ⟨w, by simp [writeV, hw], hew⟩
+      | err => rw [h2] at h; cases h
+      | panic => rw [h2] at h; cases h
+      | fuel => rw [h2] at h; cases h
+    · cases h
+  | vecSlots e wd el ih =>
+    intro pool binds bs v r hb h
+    simp only [readTy] at h
+    split at h
+    · rename_i n hn
+      cases h2 : readSlots wd (readTy rc pool binds el) n bs with
+      | ok y =>
+        obtain ⟨vs, r2⟩ := y
+        rw [h2] at h; simp at h
+        obtain ⟨rfl, rfl⟩ := h
+        obtain ⟨_, w, hw, hew⟩ :=
+          readSlots_wr env wd el _ (fun bs v r hb h => ih pool binds bs v r hb h) n n (Nat.le_refl _) bs vs r2 hb h2
         exact ⟨w, by simp [writeV, hw], hew⟩
       | err => rw [h2] at h; cases h
       | panic => rw [h2] at h; cases h
